@@ -19,7 +19,7 @@ def run(tier):
         table, behs = syntax.generate(check, family, num=n, seed=core.seed() + 5, depth=3)
         res = progs.run_programs(check, wp, family, behs, table, core.seed(), ["none", "crlf", "random"], progs.VERS[family][:2])
         res += progs.halt_programs(check, wp, family, core.seed(), ["none", "crlf", "lf"], progs.VERS[family][:2], num=40 if tier == "quick" else 300)
-        res += progs.chain_programs(check, wp, family, core.seed(), ["none"], progs.VERS[family][:1], 6 if tier == "quick" else 7,
+        res += progs.chain_programs(check, wp, family, core.seed(), ["none"], progs.VERS[family][:1], 6,
                                     fams=("both", "7", "7g") if family == "7" else ("both", "5"))
         for m, t, r in res:
             check.count()
